@@ -129,6 +129,8 @@ def generate(st):
             return d
         if t == 'loop':
             return {'t': 'loop', 'types': g.choice([['list'], ['list', 'tuple'], ['dict'], ['list', 'tuple', 'dict']])}
+        if t == 'pd2np' and g.random() < 0.4:
+            return {'t': 'pd2np', 'exc': g.choice(['b', 'c', 'zz', ['b', 'd']])}       # parameters left out of the pandas conversion
         return {'t': t}
 
     def gen_call(fid, chain_types):
@@ -383,7 +385,7 @@ def execute(trace, ctx=None):
         if t == 'loop':
             return loop(*[TYPES[x] for x in dec_['types']])(target)
         if t == 'pd2np':
-            return pd2np(target)
+            return pd2np(exc=dec_['exc'])(target) if dec_.get('exc') else pd2np(target)
         raise ValueError(t)
 
     def real_chain(obj):
